@@ -496,6 +496,11 @@ def apply_edit(st, op) -> bool:
 
 
 PROFILES = {
+    # batch-mode histories that cannot close an import cycle (no add_import / add_module / restyle to star)
+    "acyclic-batch": {"edits": ["change_export", "change_export", "change_used_export", "add_export", "remove_export", "add_use", "remove_use", "change_use", "remove_import", "toggle_broken", "toggle_semblock",
+                                "toggle_ignore", "toggle_body_error", "toggle_unlisted", "toggle_import_ignore", "delete_module", "rename_module", "to_package", "add_stub", "remove_stub", "set_base",
+                                "make_subclass", "fix_errors"],
+                      "styles": ["import", "import", "from", "func", "tc", "frompkg"], "kinds": EXPORT_KINDS},
     # daemon-friendly fragments, enabled construct by construct (C03 saturation protocol)
     "basic": {"edits": ["change_export", "change_export", "add_export", "remove_export", "add_use", "remove_use", "change_use", "toggle_ignore", "toggle_semblock", "toggle_body_error", "fix_errors", "set_base", "make_subclass", "make_subclass"],
               "styles": ["import", "import", "from"], "kinds": ["func", "func", "cls", "cls", "const", "alias", "box", "nt", "dc", "enum", "ovl"]},
